@@ -37,7 +37,8 @@ def main():
         tier = sys.argv[sys.argv.index('--tier') + 1]
     if '--extra' in sys.argv:
         extra = sys.argv[sys.argv.index('--extra') + 1].split(',')
-    src = '/tmp/seed/%s.out%s' % (prop, '' if letter in 'AB' else '2')
+    src = '/tmp/seed/%s.out%s' % (prop, '' if letter in 'AB' else (
+        '2' if letter in 'CD' else '4'))
     patch = os.path.join(src, 'patch_%s.diff' % letter)
     demo = os.path.join(src, 'demo_%s.py' % letter)
     meta_in = {}
